@@ -14,6 +14,16 @@
              operator's own messages quote it).  No message is classified by the harness:
              every text is compared byte for byte with the model's (C15_Model.serve) and the
              relayed hook message is judged by the Spec.
+   CSession: one rule set registered by real hooks (owners: the hook number of each declared
+             rule), per hook its `settings` (None = no settings block; Some (interval ns, burst)),
+             and SEVERAL ConversionReviews posted one after the other, without pause, to one
+             operator: per request what CHandler records.  The model (C15_Model.serve_session)
+             threads the hooks' limiters through all steps of all requests; it is run on the
+             empty clock - by C15_session_state_irrelevant neither clock readings nor tokens
+             influence the hook runs or the answers, so none is taken from the implementation
+             and no timing tolerance exists.  Chains are asked on ONE ChainStorage (the hook
+             manager's), like CSearch shared.  P judges every request by P_search and - when the
+             settings allow every hook to run at all (Spec.settings_in_domain) - by P_handler.
    CCrash:   the implementation panicked / the harness could not observe.
 
    Because Go iterates maps, WHICH valid chain is returned is not determined: chains are
@@ -26,15 +36,26 @@ Inductive case :=
 | CSearch (rules : list rule) (shared : bool) (qs : list rule) (answers : list (option (list rule)))
 | CHandler (rules : list rule) (src desired : version) (dtext : bytes) (chain : option (list rule))
            (req : list obj) (outs : list outcome) (trace : list invocation) (ans : review)
-| CCrash.
+| CSession (rules : list rule) (owners : list N) (hsets : list (option hsettings)) (reqs : list sreq)
+| CCrash
+with sreq :=
+| SReq (src desired : version) (dtext : bytes) (chain : option (list rule))
+       (req : list obj) (outs : list outcome) (trace : list invocation) (ans : review).
 
 Inductive mobs :=
 | MSearch (found : list bool)
 | MHandler (found : bool) (trace : list invocation) (ans : review)
+| MSession (found : list bool) (res : list (list invocation * review))
 | MCrash.
 
 Definition is_some {A} (o : option A) : bool := match o with Some _ => true | None => false end.
 Definition chain_of (o : option (list rule)) : list rule := match o with Some c => c | None => [] end.
+
+Definition sreq_query (q : sreq) : rule := match q with SReq src desired _ _ _ _ _ _ => (src, desired) end.
+Definition sreq_squery (q : sreq) : squery :=
+  match q with SReq _ desired dtext chain req outs _ _ => (dtext, desired, chain_of chain, outs, req) end.
+Definition sreq_found (q : sreq) : bool := match q with SReq _ _ _ chain _ _ _ _ => is_some chain end.
+Definition sreq_seen (q : sreq) : list invocation * review := match q with SReq _ _ _ _ _ _ trace ans => (trace, ans) end.
 
 Definition model_obs (c : case) : mobs :=
   match c with
@@ -43,6 +64,9 @@ Definition model_obs (c : case) : mobs :=
   | CHandler rules src desired dtext chain req outs _ _ =>
     let '(t, a) := serve dtext desired (chain_of chain) outs req in
     MHandler (is_some (snd (find rules (base_cache rules) (src, desired)))) t a
+  | CSession rules owners hsets reqs =>
+    MSession (map is_some (find_shared rules (base_cache rules) (map sreq_query reqs)))
+             (serve_session rules owners (initial_limiters hsets, []) (map sreq_squery reqs))
   | CCrash => MCrash
   end.
 
@@ -54,11 +78,16 @@ Definition answer_eqb (a b : review) : bool :=
   | _, _ => false
   end.
 
+Definition seen_eqb (a b : list invocation * review) : bool :=
+  list_eqb inv_eqb (fst a) (fst b) && answer_eqb (snd a) (snd b).
+
 Definition agrees (c : case) : bool :=
   match c, model_obs c with
   | CSearch _ _ _ answers, MSearch found => list_eqb Bool.eqb found (map is_some answers)
   | CHandler _ _ _ _ chain _ _ trace ans, MHandler found t a =>
     Bool.eqb found (is_some chain) && list_eqb inv_eqb t trace && answer_eqb a ans
+  | CSession _ _ _ reqs, MSession found res =>
+    list_eqb Bool.eqb found (map sreq_found reqs) && list_eqb seen_eqb res (map sreq_seen reqs)
   | _, _ => false
   end.
 
@@ -67,6 +96,9 @@ Definition P (c : case) : bool :=
   | CSearch rules _ qs answers => all_P_search rules qs answers
   | CHandler rules src desired _ chain req outs trace ans =>
     P_search rules src desired chain && P_handler desired (chain_of chain) outs req trace ans
+  | CSession rules _ hsets reqs =>
+    forallb (fun q => match q with SReq src desired _ chain _ _ _ _ => P_search rules src desired chain end) reqs
+    && (if settings_in_domain hsets then all_P_session (map sreq_squery reqs) (map sreq_seen reqs) else true)
   | CCrash => false
   end.
 
@@ -89,6 +121,18 @@ Definition CH (rules : list rule) (src desired : N) (dtext : bytes) (chain : lis
            (trace : list (N * list obj)) (ans : review) : case :=
   CHandler rules (v src) (v desired) dtext (chain_at rules chain) req outs
            (map (fun t => (nth (N.to_nat (fst t)) rules bogus_rule, snd t)) trace) ans.
+
+(* session notation: settings are written in milliseconds; HSn = a negative burst *)
+Definition HS (ms burst : N) : option hsettings := Some (Z.of_N ms * 1000000, Z.of_N burst)%Z.
+Definition HSn (ms burst : N) : option hsettings := Some (Z.of_N ms * 1000000, - Z.of_N burst)%Z.
+Definition HS0 : option hsettings := None.
+Definition SQ (src desired : N) (dtext : bytes) (chain : list N) (req : list obj) (outs : list outcome)
+           (trace : list (N * list obj)) (ans : review) (rules : list rule) : sreq :=
+  SReq (v src) (v desired) dtext (chain_at rules chain) req outs
+       (map (fun t => (nth (N.to_nat (fst t)) rules bogus_rule, snd t)) trace) ans.
+Definition CSS (rules : list rule) (owners : list N) (hsets : list (option hsettings))
+           (qs : list (list rule -> sreq)) : case :=
+  CSession rules owners hsets (map (fun f => f rules) qs).
 
 Definition mismatches (cs : list case) : list N := indices_where (fun c => negb (agrees c)) cs.
 Definition spec_violations (cs : list case) : list N := indices_where (fun c => negb (P c)) cs.
